@@ -149,6 +149,58 @@ func computeTypeAliases(pkgs []*packages.Package) {
 			renameText[nw[0]] = gone[0]
 		}
 	}
+	// second chance for struct types whose fields were renamed as well: same package, same
+	// sequence of field types
+	shape := func(u string) string {
+		if !strings.HasPrefix(u, "struct{") {
+			return ""
+		}
+		var ts []string
+		for _, f := range strings.Split(strings.TrimSuffix(strings.TrimPrefix(u, "struct{"), "}"), "; ") {
+			if i := strings.Index(f, " "); i >= 0 {
+				ts = append(ts, f[i+1:])
+			} else {
+				ts = append(ts, f)
+			}
+		}
+		return "struct-shape{" + strings.Join(ts, ";") + "}"
+	}
+	goneShape, newShape := map[string][]string{}, map[string][]string{}
+	for ku, gone := range goneBy {
+		i := strings.Index(ku, "|")
+		for _, g := range gone {
+			if _, done := func() (string, bool) {
+				for _, o := range typeRenames {
+					if o == g {
+						return o, true
+					}
+				}
+				return "", false
+			}(); done {
+				continue
+			}
+			if sh := shape(ku[i+1:]); sh != "" {
+				goneShape[ku[:i]+"|"+sh] = append(goneShape[ku[:i]+"|"+sh], g)
+			}
+		}
+	}
+	for ku, nws := range newBy {
+		i := strings.Index(ku, "|")
+		for _, n := range nws {
+			if _, done := typeRenames[n]; done {
+				continue
+			}
+			if sh := shape(ku[i+1:]); sh != "" {
+				newShape[ku[:i]+"|"+sh] = append(newShape[ku[:i]+"|"+sh], n)
+			}
+		}
+	}
+	for ks, gone := range goneShape {
+		if nw := newShape[ks]; len(gone) == 1 && len(nw) == 1 {
+			typeRenames[nw[0]] = gone[0]
+			renameText[nw[0]] = gone[0]
+		}
+	}
 	// the struct snapshot is keyed by reviewed type names
 	_ = cur
 }
